@@ -27,7 +27,13 @@ if [ "$applies" != false ]; then
     (cd "$d/demo" && find . -type f) | while read f; do rm -f "$wt/$f"; done
     go test -vet=off -count=1 $pkgs > "$wt/.tests.out" 2>&1; tests_rc=$?
     if [ $tests_rc -ne 0 ]; then sleep 5; go test -vet=off -count=1 $pkgs > "$wt/.tests.out" 2>&1; tests_rc=$?; fi
-    failed=$(grep -E '^--- FAIL' "$wt/.tests.out" | head -5 | tr '\n' ';')
+    failed=$(grep -E '^--- FAIL' "$wt/.tests.out" | head -8 | tr '\n' ';')
+    # only tests of the stable baseline count; offline/flaky tests outside it are ignored
+    stable_failed=0
+    for t in $(grep -E '^--- FAIL' "$wt/.tests.out" | awk '{print $3}'); do
+      if jq -r '.stable_pass[]' /root/.vp/BASELINE.json | grep -q "::$t\$"; then stable_failed=1; fi
+    done
+    if [ $tests_rc -ne 0 ] && [ $stable_failed -eq 0 ] && ! grep -qE '^(panic:|FAIL.*build failed)' "$wt/.tests.out"; then tests_rc=0; fi
   fi
 fi
 jq -n --arg name "$name" --arg applies "$applies" --argjson base "$base_rc" --argjson build "$build_rc" --argjson mut "$mut_rc" --argjson tests "$tests_rc" --arg pkgs "$pkgs" --arg failed "$failed" --arg demo "$demo_cmd" \
